@@ -77,6 +77,20 @@ func envInt(name string, def int) int {
 	return def
 }
 
+// deficientSigners draws a signer set that lacks the Alphabet multisignature: the given
+// outsider, a single committee member and - where they differ from the Alphabet account
+// (3 keys and more) - the committee majority n/2+1 and 2n/3 of the keys (one short).
+func deficientSigners(rt *rapid.T, c *chainkit.Chain, outsider neotest.Signer) []neotest.Signer {
+	opts := [][]neotest.Signer{{outsider}, {c.Member(0)}}
+	if c.Committee.ScriptHash() != c.Alphabet.ScriptHash() {
+		opts = append(opts, []neotest.Signer{c.Committee}, []neotest.Signer{outsider, c.Committee})
+		if m := chainkit.AlphabetThreshold(c.N) - 1; m >= 1 && m != chainkit.MajorityThreshold(c.N) {
+			opts = append(opts, []neotest.Signer{c.MultisigOf(m)})
+		}
+	}
+	return opts[rapid.IntRange(0, len(opts)-1).Draw(rt, "deficientSigners")]
+}
+
 // envInts reads a comma separated list of integers.
 func envInts(name string, def []int) []int {
 	v := os.Getenv(name)
